@@ -378,27 +378,30 @@ def r14_16(run, model):
 
 
 def r14_10(run, model):
-    run.rule("R14.10", "a program of ordinary size survives the trip through a .core file: Core nests one level per `let`, so the function that "
-                       "deserialises a CoreUnit disables serde_json's recursion limit (default 128: about 60 sequential lets)")
+    run.rule("R14.10", "what build writes, check/build/link can read back: Core nests one level per `let` and types nest in signatures, so every "
+                       "function that deserialises an artifact (CoreUnit, InterfaceUnit) disables serde_json's recursion limit (default "
+                       "128: about 60 sequential lets, or a type nested 40-60 levels)")
     from lib.mir import Mir
     mir = Mir(run.facts)
     sites = {}
     for c in mir.calls:
         if not c["file"].startswith("crates/compiler/src/") or "/tests/" in c["file"]:
             continue
-        if re.search(r"serde_json::(de::)?from_(str|slice|reader)", c["callee"]) and "artifact::CoreUnit" in c["ret"]:
-            sites.setdefault((c["file"], c["caller"]), []).append(("from", c["line"]))
-        if re.search(r"Deserialize<'de> for artifact::CoreUnit>::deserialize", c["callee"]):
-            sites.setdefault((c["file"], c["caller"]), []).append(("explicit", c["line"]))
-    if not sites:
-        raise AnalysisIncomplete("no deserialisation site of artifact::CoreUnit found")
+        for art in ("CoreUnit", "InterfaceUnit"):
+            if re.search(r"serde_json::(de::)?from_(str|slice|reader)", c["callee"]) and f"artifact::{art}" in c["ret"]:
+                sites.setdefault((c["file"], c["caller"], art), []).append(("from", c["line"]))
+            if re.search(r"Deserialize<'de> for artifact::" + art + r">::deserialize", c["callee"]):
+                sites.setdefault((c["file"], c["caller"], art), []).append(("explicit", c["line"]))
+    if not any(a == "CoreUnit" for _, _, a in sites) or not any(a == "InterfaceUnit" for _, _, a in sites):
+        raise AnalysisIncomplete(f"deserialisation sites of both artifact types not found: {sorted(sites)}")
     unlimited = {(c["file"], c["caller"]) for c in mir.calls if "disable_recursion_limit" in c["callee"]}
-    for (fl, caller), how in sorted(sites.items()):
+    for (fl, caller, art), how in sorted(sites.items()):
         ok = (fl, caller) in unlimited and all(k == "explicit" for k, _ in how)
-        run.ob("R14.10", f"{caller}|core read without recursion limit", ok, site(fl, [how[0][1]]),
-               f"CoreUnit deserialised via {sorted({k for k, _ in how})}; disable_recursion_limit in the same function: {(fl, caller) in unlimited}",
-               witness="a function with 90 sequential lets: build succeeds, link fails with `recursion limit exceeded`; whole-program compilation accepts the program")
-
+        what = "core" if art == "CoreUnit" else "interface"
+        run.ob("R14.10", f"{caller}|{what} read without recursion limit", ok, site(fl, [how[0][1]]),
+               f"{art} deserialised via {sorted({k for k, _ in how})}; disable_recursion_limit in the same function: {(fl, caller) in unlimited}",
+               witness="a function with 90 sequential lets (core) / an exported signature with a type nested 60 levels (interface): build succeeds, "
+                       "the next check/build/link fails with `recursion limit exceeded`; whole-program compilation accepts the program")
 
 def r14_8(run, model):
     run.rule("R14.8", "a float literal survives the trip through a .core file: serde_json parses floats exactly only with its `float_roundtrip` "
